@@ -354,18 +354,9 @@ class Ctx:
         for g in goals:
             local = []
             isolate = False
+            seq = None
             if isinstance(g, smt.Sequent):
-                isolate = g.isolate
-                for k, h in enumerate(g.hyps):
-                    if isinstance(h, smt.LemmaInst):
-                        self.used_lemmas.add(h.name)
-                        local.append(h.formula)
-                        continue
-                    h = lift(h) if isinstance(h, bool) else h
-                    if isolate:
-                        # cut: the local hypothesis is itself an obligation under the full path hypotheses
-                        self.obligations.append(Obligation(f'{name}.cut{k}', self.hyps(extra_terms), h, 'valid', self.path_id()))
-                    local.append(h)
+                seq, isolate = g, g.isolate
                 g = g.goal
             skolems = []
             if isinstance(g, smt.Forall) and g.arity == 2:
@@ -384,6 +375,27 @@ class Ctx:
                 gg = z3.BoolVal(g)
             else:
                 gg = g
+            if seq is not None:
+                for k, h in enumerate(seq.hyps):
+                    if isinstance(h, smt.LemmaInst):
+                        self.used_lemmas.add(h.name)
+                        # (a callable formula is instantiated at the skolem constants of a universal goal)
+                        local.append(h.formula(*skolems) if callable(h.formula) else h.formula)
+                        continue
+                    if isinstance(h, smt.Forall):
+                        # a universal local hypothesis: proved as such (cut), used at the skolem constants of the goal
+                        if h.arity != 1:
+                            raise Unsupported('binary universal local hypothesis')
+                        if isolate:
+                            jc = fresh_int(h.name)
+                            self.obligations.append(Obligation(f'{name}.cut{k}', self.hyps(list(extra_terms) + [jc]), h.inst(jc), 'valid', self.path_id()))
+                        local.extend(h.inst(t) for t in skolems)
+                        continue
+                    h = lift(h) if isinstance(h, bool) else h
+                    if isolate:
+                        # cut: the local hypothesis is itself an obligation under the full path hypotheses
+                        self.obligations.append(Obligation(f'{name}.cut{k}', self.hyps(extra_terms), h, 'valid', self.path_id()))
+                    local.append(h)
             et = list(extra_terms) + skolems
             hy = self.hyps(et)
             ob = Obligation(name, (local if isolate else hy + local), gg, expect, self.path_id())
